@@ -38,7 +38,9 @@ RULE = ("histories of subscribe / renew by service / renew by SID / renew all / 
         "non-trivial = at least one SID was granted and later renewed, replaced, lost or unsubscribed")
 EXHAUSTIVE = {"quick": False, "thorough": False}
 ASSUMPTIONS = [
-    "the requester answers without suspending (asyncio.gather in resubscribe_all/unsubscribe_all then runs sequentially)",
+    "two requester behaviours are explored: answering without suspending (asyncio.gather in the *_all calls then runs the "
+    "per-SID coroutines one after the other) and suspending once per request (every renewal goes out before any response is "
+    "processed); responses always arrive in request order",
     "services stay referenced (the weak-value routing table never drops an entry by garbage collection)",
     "caller-supplied timeouts are whole non-negative seconds",
     "granted TIMEOUT text is ASCII with fewer than 4300 digits",
@@ -89,11 +91,15 @@ async def _run(recipe, lines, tags):
     rq, eh0, svcs = _ENV[nsvc]
     eh = UpnpEventHandler(eh0._notify_server, rq)  # fresh registry
     rq.script, rq.park = [], None
+    rq.suspend = bool(recipe.get("susp", False))
     del rq.log[:]
     probes = list(dict.fromkeys(SIDS + [s for op in recipe["ops"] for s in sids_of(op)]))
     lines.append(f"cfg {tok_str(c09env.HOST)} {tok_str(c09env.CALLBACK)}")
     lines.append("probe " + ",".join(tok_str(s) for s in probes))
     lines.append(f"nsvc {nsvc}")
+    if rq.suspend:
+        lines.append("mode susp")
+        tags.add("mode:suspending")
     nontrivial = False
     granted = False
     for op in recipe["ops"]:
@@ -131,7 +137,7 @@ async def _run(recipe, lines, tags):
         except Exception as e:  # noqa: BLE001 - the exception class is an observation
             res = "exc " + c09env.exc_tok(e)
             tags.add("exc:" + c09env.exc_tok(e).split(":")[0] + (":" + c09env.exc_tok(e).split(":")[1] if c09env.exc_tok(e).startswith("RAW") else ""))
-        for _ in range(3):  # let tasks left behind by gather() finish
+        for _ in range(8):  # let tasks left behind by gather() finish
             await __import__("asyncio").sleep(0)
         for method, url, headers, react in rq.log:
             hs = ",".join(f"{k_}={tok_str(v)}" for k_, v in sorted((k2.upper(), str(v2)) for k2, v2 in headers.items()))
@@ -337,8 +343,12 @@ def generate(ctx: Ctx) -> List[Case]:
         nsvc = rng.randrange(1, 4)
         n = rng.randrange(1, 31 if ctx.thorough else 16)
         recipes.append({"nsvc": nsvc, "ops": [rand_op(rng, nsvc) for _ in range(n)]})
-    cases = [run_recipe(ctx, rec, f"corpus{i}") for i, rec in enumerate(CORPUS)]
-    cases += run_many(ctx, recipes, "g")
+    # the same histories against a requester that suspends (renew-all then sends every renewal before any fallback)
+    susp = [dict(r, susp=True) for r in recipes if any(op[0] == "resuball" for op in r["ops"])]
+    if not ctx.thorough:
+        susp = susp[:: max(1, len(susp) // 1500)]
+    cases = [run_recipe(ctx, rec, f"corpus{i}") for i, rec in enumerate(CORPUS + [dict(r, susp=True) for r in CORPUS])]
+    cases += run_many(ctx, recipes + susp, "g")
     return cases
 
 
